@@ -8,7 +8,7 @@ CHECKS = {
  "C15": ("servlab", "exploration",
    "runtime monitor on regenerated servers: counting ResponseWriter, recording ErrorHandler/NotFound/MethodNotAllowed callbacks and handler, recover around ServeHTTP; byte-level mutation of requests captured from the generated client",
    "For every operation of the regenerated corpus packages valid requests are captured in wire form from the generated client and then mutated systematically (methods, request-target/query corruption, header drop/duplicate/corrupt/empty, wrong and parameterised content types, Content-Length lies, body truncated at every prefix <= 64, trailing bytes, duplicate/dropped/null/unknown JSON members, 10^4-deep nesting, replaced bodies, multipart boundary faults), with PRNG byte mutants, hand-built *http.Request values that bypass URL validation (RawPath from a grammar: plain / needlessly escaped / escaped-separator prefix x complete, truncated or non-hex escape at the end or before more text), and a handler scripted to fail. Oracle: no panic, at most one WriteHeader, exactly one terminal stage, the stage->status table (404/405/401/400/415/500) with the handler never invoked on a refusal, and no handler call on a JSON body that is not one well-formed JSON text.",
-   "Mutants that net/http itself cannot parse are tallied and not sent. Bodies with ill-formed UTF-8 inside strings or duplicate member names that reach the handler are tallied, not judged. Schema-level over-acceptance is C03's subject.",
+   "Mutants that net/http itself cannot parse are tallied and not sent. A second, different value for a query parameter or urlencoded form field must be refused or be visible to the handler (differential against the unmutated request; credentials carried in the query are recognised by dropping the key and excluded). Bodies with ill-formed UTF-8 inside strings or duplicate member names that reach the handler are tallied, not judged. Schema-level over-acceptance is C03's subject.",
    "DESIGN.md §2 C15"),
  "C19": ("servlab", "exploration",
    "Go race detector on a race-instrumented driver linking freshly generated client+server; isolation oracle (concurrent outcome == sequential outcome per call, unique ids in every value); porcupine linearizability check of recorded key/value histories",
@@ -43,7 +43,7 @@ CHECKS = {
  "C11": ("genlab", "exploration",
    "runtime monitor over child processes running the real parser+generator on single-fault structural mutants and byte-level mutants; rusage ceilings; position oracle over node spans recorded by the harness's emitter",
    "22 mutation kinds (allOf cycles direct and through an inline wrapper, path-template faults at path keys, null/empty members of every kind of named-object container per context, delete, null, retype, number<->string, duplicate key, rename-to-collide, broken escape in a path key, dangling and self $ref, huge/negative/big numbers, 1000-deep nesting, empty map/string, long string) at every node (quick: PRNG-chosen nodes) of corpus documents in JSON and YAML spelling, plus truncation / bit flip / token insertion / deletion of the raw bytes; each run through ogen.Parse + gen.NewGenerator (+ WriteSource) in worker processes that log the input id before the call. Violations: panic, process death (fatal error), failure without error, CPU or allocation above the ceiling, a reported line:col outside the document or not at a node start, or (documents that generate before mutation) a reported node unrelated to the faulty node.",
-   "Ceilings: max(300 s CPU, 100 x unmutated document), max(8 GiB allocated, 100 x). Relatedness is generous (ancestor other than the root, descendant, sibling for key faults, another member of the same small object, or a node mentioning the faulty node; path-key faults must be located at that key); JSON-vs-YAML disagreement on the reported node is reported as inconclusive. Quick runs the template stage for every 5th mutant.",
+   "Ceilings: max(300 s CPU, 100 x unmutated document), max(8 GiB allocated, 100 x). Relatedness is generous (ancestor other than the root, descendant, sibling for key faults, another member of the same small object, or a node mentioning the faulty node; path-key faults must be located at that key); JSON-vs-YAML disagreement on the reported node is reported as inconclusive. Quick runs the template stage for every 5th mutant. Twelve response-key kinds (0XX, 6XX, 9XX, XXX, 2xx, 99, 1000, 2X, ...) at members of responses objects; a repeated key must be reported at that key (not at the enclosing mapping or another member); the YAML decoder's line-only diagnostics are judged at line granularity (some node starting on that line must be related to the fault).",
    "DESIGN.md §2 C11"),
  "C10": ("genlab", "exploration",
    "Go race detector on race-instrumented generator worker processes + differential comparison of all bytes written across repetitions, GOMAXPROCS settings, process histories and injected delays",
@@ -63,7 +63,7 @@ CHECKS = {
  "C09": ("servlab", "exploration",
    "runtime monitor on regenerated server+client: scripted SecurityHandler/SecuritySource, handler-invoked flag and status decided by a reference evaluation of the requirement structure",
    "One operation per requirement structure: all 255 non-empty sets of alternatives over 3 schemes (three rotations of scheme kinds covering apiKey header/query/cookie, basic, bearer, oauth2) x all 4^n states {absent, accepted, declined, failed} exhaustively; global security with inherit/override/security:[]/anonymous alternative; wide structures over 8-32 schemes crossing the byte boundaries of the bitmask with PRNG states. Oracle: handler invoked iff some alternative has every scheme accepted (safety half only when a scheme handler failed), else 401; credentials seen by the SecurityHandler equal those sent. Second part drives the generated client with every subset of supplied schemes through a wire-level in-process transport and compares extracted with attached credentials (token-safe values must arrive identical, hostile ones identical or fail).",
-   "Credential values exclude leading/trailing blanks (not part of an HTTP field value) and ':' in user names; OAuth2 scopes are compared as sets.",
+   "Credential values exclude leading/trailing blanks (not part of an HTTP field value) and ':' in user names; OAuth2 scopes are compared as sets. API-key header names include spellings outside net/http's canonical form (X-API-Key, x-api-key-N, api_key_N); every third document gives all operations one default response (convenient errors) and the harness implements NewError (401 for a security error).",
    "DESIGN.md §2 C09"),
  "C18": ("libmon", "exploration",
    "runtime monitor with exact-value reference (big-integer mantissa/exponent numbers, unordered objects) plus direct observation of reflexivity, symmetry, transitivity on ogen's answers",
@@ -103,7 +103,7 @@ CHECKS = {
  "C20": ("genlab", "fault_enumeration",
    "fault enumeration on the built cmd/ogen binary with directory-snapshot oracle; strace read-fault injection and syscall trace monitor",
    "Every listed pre-write failure stage (25 stages: flags, config, spec read, YAML/JSON parse, version, validation, dangling/missing/cyclic refs, not-implemented, IR conflicts, route conflicts) x {--clean, no --clean} x 7 target states is executed with the binary built from the current tree; a failing run must exit non-zero and leave the recursive snapshot of the target identical; successful runs may only create/modify/remove top-level regular files with the generator's naming pattern. Thorough adds EIO injected by strace on the N-th read of spec and config and a syscall-level monitor.",
-   "Failure stage is by construction of the case. Snapshots cover names, types, modes, sizes, sha256 and link targets (not timestamps).",
+   "Failure stage is by construction of the case. Every document of _testdata/negative is an additional stage judged by its observed exit code (x clean on/off x 3 target states). Snapshots cover names, types, modes, sizes, sha256 and link targets (not timestamps).",
    "DESIGN.md §2 C20"),
 }
 NOT_YET = {}
